@@ -246,6 +246,18 @@ def discharge(ob, want_smt=False):
     return res
 
 
+def second_opinion(ob):
+    """thorough tier: the same query handed to cvc5 (sampled obligations)"""
+    sv = z3.Solver()
+    sv.add(*ob.pc)
+    sv.add(z3.Not(ob.goal if not isinstance(ob.goal, bool) else z3.BoolVal(ob.goal)))
+    try:
+        r2, dt2 = cvc5_check(sv.to_smt2())
+    except Exception:
+        r2, dt2 = "unknown", 0.0
+    return {"solver": "cvc5-1.0.3", "result": r2, "s": round(dt2, 3)}
+
+
 def cvc5_check(smt):
     with tempfile.NamedTemporaryFile("w", suffix=".smt2", delete=False, dir=os.environ.get("VERIF_TMP", tempfile.gettempdir())) as f:
         f.write(smt)
@@ -271,7 +283,8 @@ def canary(ob):
 
 
 def _run_unit(job):
-    prop, idx, repo = job
+    prop, idx, repo = job[:3]
+    tier = job[3] if len(job) > 3 else "quick"
     name, func, opts = UNITS[prop][idx]
     t0 = time.time()
     ctx = Ctx(repo)
@@ -283,6 +296,8 @@ def _run_unit(job):
         for i, ob in enumerate(obs):
             r = discharge(ob, want_smt=(i % 37 == 0))
             r["unit"] = name
+            if tier == "thorough" and i % 10 == 0 and i < 600 and r["result"] == "unsat" and r["backend"].startswith("z3"):
+                r["second_opinion"] = second_opinion(ob)
             out["results"].append(r)
             if ob.meta.get("kind") in ("post", "exit", "raise", "yield") and r["result"] == "unsat":
                 c = canary(ob)
@@ -358,6 +373,80 @@ def replay(res, tier):
     return path, record["reproduced"]
 
 
+# ------------------------------------------------------------------------------------------ thorough tier
+def thorough_extras(prop, results, extra_out):
+    """on top of the proof: (1) every concrete replay driver of the property run as a seeded search on the real code of the tree under
+    check (bounded, never counted as proved; a failing input it finds is a violation with a replayed input); (2) cvc5 as second
+    solver on a sample of the obligations (done per unit; a disagreement makes the run undecided); (3) the mutation self-test of
+    this property's checks on scratch copies (reported; it says something about the check, not about the tree)."""
+    import concurrent.futures as cf
+    findings = load_findings()
+    keys = sorted({r["meta"].get("replay") for r in results if r["meta"].get("replay")})
+    # a driver that serves only obligations failing exactly as a listed known finding searches for that finding: it is reported as
+    # KNOWN-FINDING by the proof part already and is not searched again
+    def _known_only(k):
+        sats = [r for r in results if r["meta"].get("replay") == k and r["result"] == "sat"]
+        return bool(sats) and all(finding_for(r, findings) for r in sats)
+    known_only = {k for k in keys if _known_only(k)}
+    keys = [k for k in keys if k not in known_only]
+    for k in sorted(known_only):
+        extra_out.setdefault("bounded", []).append({"what": f"concrete search {k}", "bound": "not run: it reproduces the listed known finding only", "failing_input_found": None})
+    rdir = os.path.join(OUT, "replays", prop)
+    os.makedirs(rdir, exist_ok=True)
+
+    def run_key(key):
+        try:
+            out = subprocess.run([VENV_PY, os.path.join(VERIF, "replay", "run.py"), key, "{}", "{}"], capture_output=True, text=True, timeout=1500,
+                                 env={**os.environ, "VERIF_REPO": REPO, "PYTHONDONTWRITEBYTECODE": "1"})
+            rr = json.loads(out.stdout.strip().splitlines()[-1])
+        except Exception as e:
+            rr = {"reproduced": False, "error": repr(e)}
+        return key, rr
+    with cf.ThreadPoolExecutor(8) as ex:
+        outs = list(ex.map(run_key, keys))
+    for key, rr in outs:
+        entry = {"what": f"concrete search {key} on the real code (function-level contract, seeded inputs)", "bound": str(rr.get("input"))[:300],
+                 "failing_input_found": bool(rr.get("reproduced"))}
+        if rr.get("error"):
+            entry["error"] = str(rr["error"])[-300:]
+        extra_out.setdefault("bounded", []).append(entry)
+        if rr.get("reproduced"):
+            # a failing input found on the tree under check is a violation with a replayed input - but only if it is found again
+            # (drivers that touch a pty or the clock must not turn a timing accident into an alarm)
+            _, rr2 = run_key(key)
+            if not rr2.get("reproduced"):
+                entry["failing_input_found"] = False
+                entry["inconsistent"] = "a failing input was reported once and not on the immediate re-run; treated as undecided, not as a violation"
+                extra_out.setdefault("undecided", []).append(f"concrete-search={key} reason=not-reproducible-on-re-run")
+                continue
+            path = os.path.join(rdir, "thorough_" + re.sub(r"[^A-Za-z0-9_.-]+", "_", key) + ".json")
+            json.dump({"obligation": f"concrete search {key}", "property": prop, "replay": rr, "reproduced": True,
+                       "replay_cmd": f"{VENV_PY} {VERIF}/replay/run.py {key} '{{}}' '{{}}'"}, open(path, "w"), indent=1)
+            extra_out.setdefault("violations", []).append(f"VIOLATION property={prop} replay={path}")
+    so = [r["second_opinion"] for r in results if r.get("second_opinion")]
+    disagree = [r["name"] for r in results if r.get("second_opinion", {}).get("result") == "sat"]
+    rep = extra_out.setdefault("report", {})
+    rep["second_solver"] = {"solver": "cvc5-1.0.3", "sampled": len(so), "unsat": sum(1 for x in so if x["result"] == "unsat"),
+                            "unknown": sum(1 for x in so if x["result"] == "unknown"), "disagreements": disagree[:5]}
+    for nme in disagree[:5]:
+        extra_out.setdefault("undecided", []).append(f"obligation={nme} reason=solvers-disagree(z3 unsat, cvc5 sat)")
+    # mutation self-test of this property's checks
+    if os.environ.get("VERIF_NO_MUTANTS") != "1":
+        try:
+            sys.path.insert(0, VERIF)
+            import importlib.util
+            spec = importlib.util.spec_from_file_location("verif_selftest", os.path.join(VERIF, "tools", "selftest.py"))
+            st = importlib.util.module_from_spec(spec)
+            spec.loader.exec_module(st)
+            mine = [m_ for m_ in st.M if m_["prop"] == prop]
+            with cf.ThreadPoolExecutor(4) as ex:
+                res = list(ex.map(st.run, mine))
+            rep["mutation_selftest"] = {"mutants": len(mine), "as_expected": sum(1 for mu, v, _ in res if v == mu["expect"]),
+                                        "not_as_expected": [f"{mu['id']}: {v} (expected {mu['expect']})" for mu, v, _ in res if v != mu["expect"]]}
+        except Exception as e:
+            rep["mutation_selftest"] = {"error": repr(e)}
+
+
 # ------------------------------------------------------------------------------------------ main
 def main(argv=None):
     ap = argparse.ArgumentParser()
@@ -392,12 +481,14 @@ def main(argv=None):
         # the tree does not import: nothing can be decided, and it is not a verdict about the property
         print(f"UNDECIDED property={prop} reason=constants-dump-failed {str(e)[-400:]}")
         return 2
-    jobs = [(prop, i, REPO) for i, _ in sel]
+    jobs = [(prop, i, REPO, a.tier) for i, _ in sel]
     with mp.get_context("fork").Pool(min(a.jobs, len(jobs))) as pool:
         outs = pool.map(_run_unit, jobs, chunksize=1)
     results = [r for o in outs for r in o["results"]]
     extra = getattr(mod, "extra_checks", None)
     extra_out = extra(a.tier, seed) if extra else {}
+    if a.tier == "thorough" and not a.only:
+        thorough_extras(prop, results, extra_out)
     findings = load_findings()
     lock_path = os.path.join(VERIF, "contracts", "OBLIGATIONS.lock")
     lock = json.load(open(lock_path)) if os.path.exists(lock_path) else {}
